@@ -28,6 +28,10 @@ pub enum Step {
     /// move the value to a new slot (the old slot becomes empty)
     Move(usize),
     Drop(usize),
+    /// slots[a].clone_from(&slots[b]): the value a held before is replaced and must be erased
+    CloneFrom(usize, usize),
+    /// the container is dropped while a panic unwinds through its owner (the panic is caught)
+    DropInPanic(usize),
     /// noise_encrypt to a small-order recipient: fails after cloning sender (and ephemeral)
     LibNoiseSmallOrder(usize),
     /// key_encrypt with a hard I/O fault at the given write call (error path drops)
@@ -64,8 +68,8 @@ impl Family for A7 {
     }
     fn budget(&self, tier: Tier, _p: &str) -> u64 {
         match tier {
-            Tier::Quick => 20000,
-            Tier::Thorough => 600000,
+            Tier::Quick => 200000,
+            Tier::Thorough => 4000000,
         }
     }
     fn generate(&self, rng: &mut Rng, _tier: Tier, idx: u64) -> Scn {
@@ -94,7 +98,7 @@ impl Family for A7 {
                 order.swap(i, rng.usize_below(i + 1));
             }
             for o in order {
-                steps.push(Step::Drop(o));
+                steps.push(if rng.chance(1, 5) { Step::DropInPanic(o) } else { Step::Drop(o) });
             }
         } else {
             let n = rng.range(3, 14);
@@ -108,7 +112,9 @@ impl Family for A7 {
                     6 => Step::BoxedPayload(key(rng)),
                     7..=10 if slots > 0 => Step::Clone(rng.usize_below(slots)),
                     11..=12 if slots > 0 => Step::Move(rng.usize_below(slots)),
-                    13..=16 if slots > 0 => Step::Drop(rng.usize_below(slots)),
+                    13..=14 if slots > 0 => Step::Drop(rng.usize_below(slots)),
+                    15 if slots > 1 => Step::CloneFrom(rng.usize_below(slots), rng.usize_below(slots)),
+                    16 if slots > 0 => Step::DropInPanic(rng.usize_below(slots)),
                     17 if slots > 0 => Step::LibNoiseSmallOrder(rng.usize_below(slots)),
                     18 if slots > 0 => Step::LibEncryptFault(rng.usize_below(slots), rng.usize_below(6)),
                     19 if slots > 0 => Step::LibDecryptFault(rng.usize_below(slots), rng.usize_below(8)),
@@ -241,6 +247,87 @@ impl Family for A7 {
                         }
                     }
                 }
+                Step::CloneFrom(a, b) => {
+                    sig.push('f');
+                    let n = slots.len();
+                    if n > 1 && a % n != b % n {
+                        let (ai, bi) = (a % n, b % n);
+                        let src = match slots[bi].as_ref() {
+                            Some(Slot::Priv(p)) => Some(p.clone()),
+                            _ => None,
+                        };
+                        if let (Some(Slot::Priv(dst)), Some(src)) = (slots[ai].as_mut(), src) {
+                            alloc::clear_watches();
+                            let old_ptr = dst.as_bytes().as_ptr();
+                            let w = alloc::watch(old_ptr, 32);
+                            dst.clone_from(&src);
+                            let ws = alloc::watched(w);
+                            checked += 1;
+                            // either the old block was released (then it must have been erased first)
+                            // or it was reused in place and now holds the new value
+                            if ws.freed && nonzero(&ws.snap[..32]) {
+                                out.violations.push(viol("C20", "private_key_not_erased", format!("step {}: clone_from released the replaced key's block with {} non-zero secret bytes in it", i, ws.snap[..32].iter().filter(|b| **b != 0).count())));
+                            }
+                            alloc::clear_watches();
+                            // src (a clone) is dropped here, unwatched
+                        }
+                    }
+                }
+                Step::DropInPanic(k) => {
+                    sig.push('p');
+                    let n = slots.len();
+                    if n > 0 {
+                        if let Some(v) = slots[*k % n].take() {
+                            checked += 1;
+                            alloc::clear_watches();
+                            match v {
+                                Slot::Priv(key) => {
+                                    let w = alloc::watch(key.as_bytes().as_ptr(), 32);
+                                    let _ = run_guarded(move || {
+                                        let _owned = key;
+                                        panic!("unwinding through the owner of a key");
+                                    });
+                                    let ws = alloc::watched(w);
+                                    if ws.freed && nonzero(&ws.snap[..32]) {
+                                        out.violations.push(viol("C20", "private_key_not_erased", format!("step {}: PrivateKey dropped during unwinding was released with non-zero secret bytes", i)));
+                                    } else if !ws.freed {
+                                        out.violations.push(viol("C20", "private_key_block_not_released", format!("step {}: drop during unwinding", i)));
+                                    }
+                                }
+                                Slot::Pay(mut b) => {
+                                    struct Guard(*mut PayloadKey);
+                                    impl Drop for Guard {
+                                        fn drop(&mut self) {
+                                            unsafe { std::ptr::drop_in_place(self.0) };
+                                        }
+                                    }
+                                    let p = b.as_mut_ptr();
+                                    let g = Guard(p);
+                                    let _ = run_guarded(move || {
+                                        let _owned = g;
+                                        panic!("unwinding through the owner of a key");
+                                    });
+                                    let after: [u8; 32] = unsafe { std::ptr::read_volatile(p as *const [u8; 32]) };
+                                    if nonzero(&after) {
+                                        out.violations.push(viol("C20", "payload_key_not_erased", format!("step {}: a PayloadKey dropped while a panic was unwinding still holds {} non-zero bytes", i, after.iter().filter(|x| **x != 0).count())));
+                                    }
+                                }
+                                Slot::BoxPay(bx) => {
+                                    let w = alloc::watch(bx.as_bytes().as_ptr(), 32);
+                                    let _ = run_guarded(move || {
+                                        let _owned = bx;
+                                        panic!("unwinding through the owner of a key");
+                                    });
+                                    let ws = alloc::watched(w);
+                                    if ws.freed && nonzero(&ws.snap[..32]) {
+                                        out.violations.push(viol("C20", "payload_key_not_erased", format!("step {}: boxed PayloadKey dropped during unwinding was released with non-zero secret bytes", i)));
+                                    }
+                                }
+                            }
+                            alloc::clear_watches();
+                        }
+                    }
+                }
                 Step::LibNoiseSmallOrder(k) => {
                     sig.push('N');
                     let n = slots.len();
@@ -299,7 +386,7 @@ impl Family for A7 {
         // dropping a step renumbers later slots only if it created one; try removing non-creating steps
         let mut c = vec![];
         for i in (0..s.steps.len()).rev() {
-            if matches!(s.steps[i], Step::Drop(_) | Step::LibNoiseSmallOrder(_) | Step::LibEncryptFault(..) | Step::LibDecryptFault(..)) {
+            if matches!(s.steps[i], Step::Drop(_) | Step::CloneFrom(..) | Step::DropInPanic(_) | Step::LibNoiseSmallOrder(_) | Step::LibEncryptFault(..) | Step::LibDecryptFault(..)) {
                 let mut t = s.clone();
                 t.steps.remove(i);
                 c.push(t);
